@@ -225,7 +225,10 @@ impl EpochSnapshotManager {
         // Prune if needed (deferred slightly, or do it now)
         // We prune strictly greater than retention count.
         // If retention is 5, we keep 5 snapshots.
-        while queue.len() > self.retention_count {
+        // The snapshot just taken always stays for now: the caller needs it to undo the commit
+        // if that turns out not to be storable, also with a retention of 0. The caller calls
+        // `enforce_retention` once the commit has been dealt with.
+        while queue.len() > self.retention_count.max(1) {
             if let Some(old_snap) = queue.pop_front() {
                 // Best effort release
                 let _ = storage.release_group_snapshot(&old_snap.group_id, &old_snap.snapshot_name);
@@ -233,6 +236,20 @@ impl EpochSnapshotManager {
         }
 
         Ok(snapshot_name)
+    }
+
+    /// Releases whatever exceeds the retention count (with a retention of 0: the snapshot
+    /// `create_snapshot` left in place for the commit that has now been applied).
+    pub fn enforce_retention<S: MdkStorageProvider>(&self, storage: &S, group_id: &GroupId) {
+        let mut inner = self.inner.lock().unwrap();
+        if let Some(queue) = inner.snapshots.get_mut(group_id) {
+            while queue.len() > self.retention_count {
+                if let Some(old_snap) = queue.pop_front() {
+                    let _ =
+                        storage.release_group_snapshot(&old_snap.group_id, &old_snap.snapshot_name);
+                }
+            }
+        }
     }
 
     /// Check if a candidate commit is "better" than the one we applied for this epoch.
